@@ -26,6 +26,8 @@ NAMINGS = {
     'separators': (dict(c1='a__b', sto='a', tr='b', c2='a_internal_b'), dict(n0='N (1)', n1='N')),
     'swapped': (dict(c1='c2', sto='tr', tr='sto', c2='c1'), dict(n0='n1', n1='n0')),
     'spaces': (dict(c1='a b', sto='a', tr=' a', c2='b '), dict(n0='0', n1='00')),
+    'numeric_like': (dict(c1='12.5', sto='1e3', tr='007', c2='7'), dict(n0='007', n1='7')),
+    'blanks_only_difference': (dict(c1='x', sto=' x', tr='x ', c2=' x '), dict(n0='hub', n1='hub ')),
 }
 QUICK_ORDERS = [(0, 1, 2, 3), (3, 2, 1, 0), (1, 0, 3, 2), (2, 3, 0, 1)]
 
@@ -53,6 +55,8 @@ def cases(tier, seed):
         out.append(('structured_inner_order_%s' % ''.join(map(str, o)), dict(kind='inner', which='structured', order=list(o), T=5)))
     for o in ((3, 2, 0, 1), (2, 3, 1, 0)) if tier != 'thorough' else [p_ for p_ in itertools.permutations(range(4)) if list(p_) != [0, 1, 2, 3]][::3]:
         out.append(('linked_inner_order_%s' % ''.join(map(str, o)), dict(kind='inner', which='linked', order=list(o), T=3)))
+    for nm in ('numeric', 'numeric_like', 'blanks_only_difference'):
+        out.append(('rename_%s_with_coarse_asset' % nm, dict(kind='rename', naming=nm, order=[0, 1, 2, 3], two_node=False, T=4, coarse=True)))
     out.append(('rename_and_order', dict(kind='rename', naming='numeric', order=[2, 0, 3, 1], two_node=True, T=3)))
     out.append(('many_variables_1x_x', dict(kind='rename', naming='many', order=[0, 1], two_node=False, T=12)))
     for nm, names in (('substring', ('gen', 'gen_big')), ('numeric', ('1', '12')), ('plain', ('ga', 'gb'))):
@@ -79,7 +83,7 @@ def build_many(D, names, T):
     return pf, tg, shapes.prices_for(D, ['p', 'q'], T), dict(c1=names[0], c2=names[1]), dict(n0='n0')
 
 
-def build(D, naming, order, two_node, T, wacc=False):
+def build(D, naming, order, two_node, T, wacc=False, coarse=False):
     """baseline roles are the symbol names; the asset / node names are nu(role)"""
     eao = lift.import_eao()
     if naming == 'many':
@@ -93,7 +97,7 @@ def build(D, naming, order, two_node, T, wacc=False):
     c1 = shapes.mk_market(D, 'c1', n0, T, 'p', ec=True, wacc=D('wacc_c1', lo=0) if wacc else 0)
     sto = shapes.mk_storage(D, 'sto', [n0, n1] if two_node else n1, eff=0.75)
     tr = shapes.mk_transport(D, 'tr', n0, n1, eff=0.5, wacc=D('wacc_tr', lo=0) if wacc else 0)
-    c2 = shapes.mk_market(D, 'c2', n1, T, 'q')
+    c2 = shapes.mk_market(D, 'c2', n1, T, 'q', **(dict(freq='2h') if coarse else {}))      # coarse: an asset with its own coarser frequency
     assets = [c1, sto, tr, c2]
     for a, r in zip(assets, ROLES):
         a.name = an[r]
@@ -173,8 +177,8 @@ def run_case(case_id, tier, seed, kind, **kw):
 
     def bld(D):
         if kind == 'rename':
-            pf, tg, prices, an, nn = build(D, kw['naming'], kw['order'], kw['two_node'], T, kw.get('wacc', False))
-            pf0, tg0, prices0, an0, nn0 = build(D, None, [0, 1, 2, 3], kw['two_node'], T, kw.get('wacc', False))
+            pf, tg, prices, an, nn = build(D, kw['naming'], kw['order'], kw['two_node'], T, kw.get('wacc', False), kw.get('coarse', False))
+            pf0, tg0, prices0, an0, nn0 = build(D, None, [0, 1, 2, 3], kw['two_node'], T, kw.get('wacc', False), kw.get('coarse', False))
             ren = renamer(an, nn)
             colmap = dict(assets=an, nodes=nn)
         elif kind == 'inner':
@@ -279,8 +283,8 @@ def observe(case, kwargs, env, rq):
     kind = kw.pop('kind')
     T = kw['T']
     if kind == 'rename':
-        pf, tg, prices, an, nn = build(D, kw['naming'], kw['order'], kw['two_node'], T, kw.get('wacc', False))
-        pf0, tg0, prices0, _, _ = build(D, None, [0, 1, 2, 3], kw['two_node'], T, kw.get('wacc', False))
+        pf, tg, prices, an, nn = build(D, kw['naming'], kw['order'], kw['two_node'], T, kw.get('wacc', False), kw.get('coarse', False))
+        pf0, tg0, prices0, _, _ = build(D, None, [0, 1, 2, 3], kw['two_node'], T, kw.get('wacc', False), kw.get('coarse', False))
     elif kind == 'inner':
         pf, tg, prices = build_inner(D, kw['which'], kw['order'], T)
         pf0, tg0, prices0 = build_inner(D, kw['which'], sorted(kw['order']), T)
